@@ -1,4 +1,4 @@
-//go:build verif
+//go:build verif && (c20 || allprops)
 
 package main
 
@@ -460,36 +460,6 @@ func init() {
 			}
 		}
 	}
-}
-
-func truncate(s string, n int) string {
-	if len(s) > n {
-		return s[:n]
-	}
-	return s
-}
-
-// normaliseJ converts nested map[string]interface{} (from cloneJ) into J so the injectors can
-// type-assert uniformly.
-func normaliseJ(v J) J {
-	var conv func(x interface{}) interface{}
-	conv = func(x interface{}) interface{} {
-		switch t := x.(type) {
-		case map[string]interface{}:
-			o := J{}
-			for k, e := range t {
-				o[k] = conv(e)
-			}
-			return o
-		case []interface{}:
-			for i := range t {
-				t[i] = conv(t[i])
-			}
-			return t
-		}
-		return x
-	}
-	return conv(map[string]interface{}(v)).(J)
 }
 
 var _ = strings.Contains
